@@ -6,8 +6,9 @@ import KpModel.Format.Kdbx4Lemmas
 Property theorems only.  Proved here, for every input:
 * `hashedBlocks_write` — every partition of the data into non-empty hashed blocks (any ids: the reader ignores them)
   followed by the zero-size terminator reads back as the data;
-* `C02_kdbx3_payload` — the payload stage of `decrypt_kdbx3` on stream-start bytes ++ hashed blocks returns the data;
-* `collapse_*`, `C02_kdb_levels_*` — the level-driven tree construction on the first steps (witness-level, by evaluation);
+* `C02_kdbx3_framing` — the whole of `decrypt_kdbx3`: for every primitive family with the laws, configuration, draw of
+  seeds / IV / keys, order of header fields with comment fields, end-of-header payload and block partition, the file a
+  conforming writer produces decodes to the stored configuration, inner key and document;
 * `C02_kdb_dup_witness`, `C02_kdb_dup_nested_witness` — the inputs of finding F11 (sibling groups with the same name;
   repaired in /repo by a `fix:` commit, the model follows the repaired code): entries land in the group whose id they name.
 * `C02_kdb_distinct_witness`, `C02_kdb_levels_witness` — forests by level numbers decode as stored.
@@ -84,6 +85,257 @@ theorem writeHashed_length_ge (P : Prims) (parts : List Bytes) (i : Nat) :
     have := ih (i + 1)
     simp [writeHashed] at this ⊢
     omega
+
+/-! ### KDBX 3.1 framing: every conforming layout decodes to what was stored -/
+
+structure Cfg3 where
+  minor : Nat
+  outer : OuterCipher
+  compression : Bool
+  inner : InnerCipher
+  rounds : Nat
+
+structure Tape3 where
+  masterSeed : Bytes
+  transformSeed : Bytes
+  iv : Bytes
+  streamKey : Bytes
+  streamStart : Bytes
+
+inductive F3 where
+  | comment (b : Bytes)
+  | cipher | compression | masterSeed | transformSeed | rounds | iv | streamKey | streamStart | inner
+  deriving DecidableEq
+
+def tlv2 (t : UInt8) (v : Bytes) : Bytes := t :: (toLe16 v.length ++ v)
+
+def f3Bytes (c : Cfg3) (t : Tape3) : F3 → Bytes
+  | .comment b => tlv2 1 b
+  | .cipher => tlv2 2 (cipherUuid c.outer)
+  | .compression => tlv2 3 (toLe32 (if c.compression then 1 else 0))
+  | .masterSeed => tlv2 4 t.masterSeed
+  | .transformSeed => tlv2 5 t.transformSeed
+  | .rounds => tlv2 6 (toLe64 c.rounds)
+  | .iv => tlv2 7 t.iv
+  | .streamKey => tlv2 8 t.streamKey
+  | .streamStart => tlv2 9 t.streamStart
+  | .inner => tlv2 10 (toLe32 (innerId c.inner))
+
+def versionHeader3 (minor : Nat) : Bytes :=
+  [0x03, 0xd9, 0xa2, 0x9a] ++ toLe32 0xb54bfb67 ++ toLe16 minor ++ toLe16 3
+
+def header3 (c : Cfg3) (t : Tape3) (order : List F3) (endPayload : Bytes) : Bytes :=
+  versionHeader3 c.minor ++ order.flatMap (f3Bytes c t) ++ tlv2 0 endPayload
+
+def apply3 (c : Cfg3) (t : Tape3) (acc : H3Acc) : F3 → H3Acc
+  | .comment _ => acc
+  | .cipher => { acc with cipher := some c.outer }
+  | .compression => { acc with compression := some c.compression }
+  | .masterSeed => { acc with masterSeed := some t.masterSeed }
+  | .transformSeed => { acc with transformSeed := some t.transformSeed }
+  | .rounds => { acc with rounds := some c.rounds }
+  | .iv => { acc with iv := some t.iv }
+  | .streamKey => { acc with streamKey := some t.streamKey }
+  | .streamStart => { acc with streamStart := some t.streamStart }
+  | .inner => { acc with inner := some c.inner }
+
+def f3Ok : F3 → Prop
+  | .comment b => b.length < 65536
+  | _ => True
+
+structure Header3Ok (c : Cfg3) (t : Tape3) (order : List F3) (endPayload : Bytes) : Prop where
+  minor : c.minor < 65536
+  rounds : c.rounds < 18446744073709551616
+  seed : t.masterSeed.length < 65536
+  tseed : t.transformSeed.length = 32
+  iv : t.iv.length < 65536
+  skey : t.streamKey.length < 65536
+  sstart : t.streamStart.length = 32
+  fields : ∀ f ∈ order, f3Ok f
+  endp : endPayload.length < 65536
+  all : F3.cipher ∈ order ∧ F3.compression ∈ order ∧ F3.masterSeed ∈ order ∧ F3.transformSeed ∈ order ∧ F3.rounds ∈ order
+        ∧ F3.iv ∈ order ∧ F3.streamKey ∈ order ∧ F3.streamStart ∈ order ∧ F3.inner ∈ order
+
+theorem tlv2_length (t : UInt8) (v : Bytes) : (tlv2 t v).length = 3 + v.length := by
+  simp [tlv2, toLe16]; omega
+
+theorem h3Loop_step (fuel : Nat) (t : UInt8) (v rest : Bytes) (n : Nat) (acc : H3Acc) (hv : v.length < 65536) :
+    h3Loop (fuel + 1) (tlv2 t v ++ rest) n acc =
+      match h3Field acc t v with
+      | .ok none => .ok (acc, n + 3 + v.length)
+      | .ok (some acc') => h3Loop fuel rest (n + 3 + v.length) acc'
+      | .err c => .err c
+      | .panic s => .panic s := by
+  have e : tlv2 t v ++ rest = t :: (toLe16 v.length ++ (v ++ rest)) := by simp [tlv2]
+  rw [e, h3Loop]
+  have h1 : ¬ ((toLe16 v.length ++ (v ++ rest)).length < 2) := by simp [toLe16]
+  simp only [h1, ↓reduceIte, le16_toLe16 _ hv]
+  have hd : List.drop 2 (toLe16 v.length ++ (v ++ rest)) = v ++ rest := List.drop_left' (by simp [toLe16])
+  rw [hd]
+  have h2 : ¬ ((v ++ rest).length < v.length) := by simp
+  simp only [h2, ↓reduceIte, List.take_left' rfl, List.drop_left' rfl]
+  cases h3Field acc t v with
+  | ok o => cases o <;> rfl
+  | err c => rfl
+  | panic s => rfl
+
+theorem h3Field_of (c : Cfg3) (t : Tape3) (order : List F3) (ep : Bytes) (H : Header3Ok c t order ep)
+    (acc : H3Acc) (f : F3) (hf : f3Ok f) :
+    ∃ ty v, f3Bytes c t f = tlv2 ty v ∧ v.length < 65536 ∧ h3Field acc ty v = .ok (some (apply3 c t acc f)) := by
+  cases f with
+  | comment b => exact ⟨1, b, rfl, hf, by simp [h3Field, apply3]⟩
+  | cipher =>
+    refine ⟨2, cipherUuid c.outer, rfl, by cases c.outer <;> decide, ?_⟩
+    simp [h3Field, h3Cipher, cipherOfUuid_cipherUuid, apply3]
+  | compression =>
+    refine ⟨3, toLe32 (if c.compression then 1 else 0), rfl, by simp, ?_⟩
+    have e0 : le32 (toLe32 0) = 0 := by decide
+    have e1 : le32 (toLe32 1) = 1 := by decide
+    cases hc : c.compression <;> simp [h3Field, h3Compression, apply3, readU32E, bind, Outcome.bind, hc, e0, e1]
+  | masterSeed => exact ⟨4, t.masterSeed, rfl, H.seed, by simp [h3Field, apply3]⟩
+  | transformSeed => exact ⟨5, t.transformSeed, rfl, by rw [H.tseed]; decide, by simp [h3Field, apply3]⟩
+  | rounds =>
+    refine ⟨6, toLe64 c.rounds, rfl, by simp, ?_⟩
+    simp [h3Field, h3Rounds, apply3, readU64E, bind, Outcome.bind, le64_toLe64' _ H.rounds]
+  | iv => exact ⟨7, t.iv, rfl, H.iv, by simp [h3Field, apply3]⟩
+  | streamKey => exact ⟨8, t.streamKey, rfl, H.skey, by simp [h3Field, apply3]⟩
+  | streamStart => exact ⟨9, t.streamStart, rfl, by rw [H.sstart]; decide, by simp [h3Field, apply3]⟩
+  | inner =>
+    refine ⟨10, toLe32 (innerId c.inner), rfl, by simp, ?_⟩
+    have : le32 (toLe32 (innerId c.inner)) = innerId c.inner := le32_toLe32' _ (by cases c.inner <;> decide)
+    simp [h3Field, h3Inner, apply3, readU32E, bind, Outcome.bind, this, innerOfId_innerId]
+
+theorem h3Loop_fields (c : Cfg3) (t : Tape3) (order : List F3) (ep : Bytes) (H : Header3Ok c t order ep) (rest : Bytes) :
+    ∀ (fs : List F3) (fuel n : Nat) (acc : H3Acc), (∀ f ∈ fs, f3Ok f) → fs.length + 1 ≤ fuel →
+      h3Loop fuel ((fs.flatMap (f3Bytes c t)) ++ (tlv2 0 ep ++ rest)) n acc
+      = .ok (fs.foldl (apply3 c t) acc, n + (fs.flatMap (f3Bytes c t)).length + 3 + ep.length) := by
+  intro fs
+  induction fs with
+  | nil =>
+    intro fuel n acc _ hf
+    obtain ⟨f, rfl⟩ : ∃ f, fuel = f + 1 := ⟨fuel - 1, by simp at hf; omega⟩
+    simp only [List.flatMap_nil, List.nil_append, List.foldl_nil, List.length_nil, Nat.add_zero]
+    rw [h3Loop_step f 0 ep rest n acc H.endp]
+    simp [h3Field]
+  | cons x xs ih =>
+    intro fuel n acc hok hf
+    obtain ⟨f, rfl⟩ : ∃ f, fuel = f + 1 := ⟨fuel - 1, by simp at hf; omega⟩
+    obtain ⟨ty, v, hb, hv, hfield⟩ := h3Field_of c t order ep H acc x (hok x (List.mem_cons_self ..))
+    simp only [List.flatMap_cons, List.append_assoc, List.foldl_cons, List.length_append]
+    rw [hb, h3Loop_step f ty v _ n acc hv, hfield]
+    simp only
+    rw [ih f (n + 3 + v.length) _ (fun y hy => hok y (List.mem_cons_of_mem _ hy)) (by simp at hf; omega)]
+    congr 2
+    rw [tlv2_length]; omega
+
+theorem foldl_apply3 (c : Cfg3) (t : Tape3) (fs : List F3) (acc : H3Acc) :
+    (fs.foldl (apply3 c t) acc).cipher = (if F3.cipher ∈ fs then some c.outer else acc.cipher)
+    ∧ (fs.foldl (apply3 c t) acc).compression = (if F3.compression ∈ fs then some c.compression else acc.compression)
+    ∧ (fs.foldl (apply3 c t) acc).masterSeed = (if F3.masterSeed ∈ fs then some t.masterSeed else acc.masterSeed)
+    ∧ (fs.foldl (apply3 c t) acc).transformSeed = (if F3.transformSeed ∈ fs then some t.transformSeed else acc.transformSeed)
+    ∧ (fs.foldl (apply3 c t) acc).rounds = (if F3.rounds ∈ fs then some c.rounds else acc.rounds)
+    ∧ (fs.foldl (apply3 c t) acc).iv = (if F3.iv ∈ fs then some t.iv else acc.iv)
+    ∧ (fs.foldl (apply3 c t) acc).streamKey = (if F3.streamKey ∈ fs then some t.streamKey else acc.streamKey)
+    ∧ (fs.foldl (apply3 c t) acc).streamStart = (if F3.streamStart ∈ fs then some t.streamStart else acc.streamStart)
+    ∧ (fs.foldl (apply3 c t) acc).inner = (if F3.inner ∈ fs then some c.inner else acc.inner) := by
+  induction fs generalizing acc with
+  | nil => simp
+  | cons x xs ih =>
+    simp only [List.foldl_cons]
+    obtain ⟨i1, i2, i3, i4, i5, i6, i7, i8, i9⟩ := ih (apply3 c t acc x)
+    rw [i1, i2, i3, i4, i5, i6, i7, i8, i9]
+    cases x <;> simp [apply3] <;> (repeat' split) <;> simp_all
+
+theorem parseVersion_versionHeader3 (minor : Nat) (h : minor < 65536) (rest : Bytes) :
+    Kp.Io.parseVersion (versionHeader3 minor ++ rest) = some (.kdbx3 minor) := by
+  have hm : Kp.Io.le16 (UInt8.ofNat (minor % 256)) (UInt8.ofNat (minor / 256 % 256)) = minor := by
+    simp only [Kp.Io.le16, UInt8.toNat_ofNat']; omega
+  simp only [versionHeader3, toLe32, toLe16, List.cons_append, List.nil_append, Kp.Io.parseVersion]
+  have h1 : Kp.Io.le32 103 251 75 181 = 3041655655 := by decide
+  have h2 : Kp.Io.le16 3 0 = 3 := by decide
+  simp [h1, h2, hm]
+
+theorem versionHeader3_length (minor : Nat) : (versionHeader3 minor).length = 12 := by
+  simp [versionHeader3, toLe16]
+
+theorem f3_flatMap_len (c : Cfg3) (t : Tape3) (order : List F3) : order.length ≤ (order.flatMap (f3Bytes c t)).length := by
+  induction order with
+  | nil => simp
+  | cons x xs ih =>
+    simp only [List.flatMap_cons, List.length_append, List.length_cons]
+    have : 1 ≤ (f3Bytes c t x).length := by cases x <;> simp [f3Bytes, tlv2]
+    omega
+
+/-- the file a conforming KDBX 3.1 writer produces -/
+def build3 (P : Prims) (c : Cfg3) (t : Tape3) (order : List F3) (ep : Bytes) (parts : List Bytes) (composite : Bytes) :
+    Option Bytes :=
+  let tk := P.aesKdf t.transformSeed c.rounds composite
+  (P.encO c.outer (P.sha256 (t.masterSeed ++ tk)) t.iv (t.streamStart ++ writeHashed P 0 parts)).map
+    fun ct => header3 c t order ep ++ ct
+
+/-- **KDBX 3.1 framing theorem.**  For every primitive family with the laws, every configuration (any outer cipher,
+    compression on or off, any inner cipher id, any round count below 2^64), every draw of the seeds / IV / keys,
+    every order of the header fields with comment fields anywhere, every end-of-header payload, every partition of
+    the (possibly compressed) document into non-empty hashed blocks, the reader returns exactly the stored
+    configuration, the inner key SHA-256(stream key) and the document. -/
+theorem C02_kdbx3_framing (P : Prims) (L : P.Laws) (c : Cfg3) (t : Tape3) (order : List F3) (ep : Bytes)
+    (parts : List Bytes) (xml composite file : Bytes)
+    (H : Header3Ok c t order ep)
+    (hparts : ∀ b ∈ parts, b ≠ [] ∧ b.length < 4294967296)
+    (hdata : parts.flatten = (if c.compression then P.gzip xml else xml))
+    (hfile : build3 P c t order ep parts composite = some file) :
+    decrypt3 P file (some composite)
+      = .ok ⟨c.minor, c.outer, c.compression, c.inner, c.rounds, P.sha256 t.streamKey, xml⟩ := by
+  unfold build3 at hfile
+  simp only [Option.map_eq_some_iff] at hfile
+  obtain ⟨ct, hct, rfl⟩ := hfile
+  unfold decrypt3
+  have hv : Kp.Io.parseVersion (header3 c t order ep ++ ct) = some (.kdbx3 c.minor) := by
+    unfold header3
+    rw [List.append_assoc, List.append_assoc]
+    exact parseVersion_versionHeader3 c.minor H.minor _
+  rw [hv]
+  simp only
+  have hdrop : (header3 c t order ep ++ ct).drop 12 = (order.flatMap (f3Bytes c t)) ++ (tlv2 0 ep ++ ct) := by
+    unfold header3
+    rw [List.append_assoc, List.append_assoc, List.drop_left' (versionHeader3_length _)]
+  rw [hdrop]
+  have hfuel : order.length + 1 ≤ (header3 c t order ep ++ ct).length + 1 := by
+    have := f3_flatMap_len c t order
+    unfold header3
+    simp only [List.length_append]
+    omega
+  rw [h3Loop_fields c t order ep H ct order _ 12 {} H.fields hfuel]
+  obtain ⟨f1, f2, f3, f4, f5, f6, f7, f8, f9⟩ := foldl_apply3 c t order {}
+  simp only [bind, Outcome.bind]
+  rw [f1, f2, f3, f4, f5, f6, f7, f8, f9]
+  obtain ⟨a1, a2, a3, a4, a5, a6, a7, a8, a9⟩ := H.all
+  simp only [a1, a2, a3, a4, a5, a6, a7, a8, a9, ↓reduceIte]
+  -- the body starts where the header ends
+  have hbody : (header3 c t order ep ++ ct).drop (12 + (order.flatMap (f3Bytes c t)).length + 3 + ep.length) = ct := by
+    apply List.drop_left'
+    unfold header3
+    simp only [List.length_append, versionHeader3_length, tlv2_length]
+    omega
+  rw [hbody]
+  have hts : ¬ (t.transformSeed.length ≠ 32) := by simp [H.tseed]
+  simp only [runKdf, hts, ↓reduceIte]
+  have hdec := L.dec_enc _ _ _ _ _ hct
+  simp only [hdec]
+  have hlen : ¬ ((t.streamStart ++ writeHashed P 0 parts).length < t.streamStart.length) := by simp
+  simp only [hlen, ↓reduceIte, List.take_left' rfl]
+  have hne : (t.streamStart != t.streamStart) = false := by simp
+  simp only [hne, Bool.false_eq_true, ↓reduceIte]
+  have hd32 : (t.streamStart ++ writeHashed P 0 parts).drop 32 = writeHashed P 0 parts := List.drop_left' H.sstart
+  rw [hd32]
+  have hfuel2 : parts.length + 1 ≤ (t.streamStart ++ writeHashed P 0 parts).length + 1 := by
+    have := writeHashed_length_ge P parts 0
+    simp only [List.length_append]; omega
+  rw [hashedBlocks_write P L parts hparts _ 0 [] hfuel2]
+  simp only [List.nil_append, hdata]
+  cases hc : c.compression
+  · simp
+  · simp [L.gunzip_gzip]
 
 /-! ### KDB: evaluation-level statements over the faithful model -/
 
